@@ -9,6 +9,43 @@ use std::io::{BufRead, Read, Seek, SeekFrom};
 
 pub trait SrcPos {
     fn src_pos(&self) -> u64;
+    /// the source can inject a read fault (bit 62 of `src_pos` = "the fault has fired")
+    const FAULTY: bool = false;
+}
+
+/// A cursor whose read at absolute offset `at` fails ONCE with a transient error; reads before it stop short at `at`.
+#[derive(Clone)]
+pub struct FaultCursor<'a> {
+    pub cur: std::io::Cursor<&'a [u8]>,
+    pub at: u64,
+    pub fired: bool,
+}
+impl<'a> Read for FaultCursor<'a> {
+    fn read(&mut self, buf: &mut [u8]) -> std::io::Result<usize> {
+        if !self.fired && !buf.is_empty() {
+            let pos = self.cur.position();
+            if pos == self.at {
+                self.fired = true;
+                return Err(std::io::Error::new(std::io::ErrorKind::Other, "injected read fault"));
+            }
+            if pos < self.at {
+                let lim = buf.len().min((self.at - pos) as usize);
+                return self.cur.read(&mut buf[..lim]);
+            }
+        }
+        self.cur.read(buf)
+    }
+}
+impl<'a> Seek for FaultCursor<'a> {
+    fn seek(&mut self, p: SeekFrom) -> std::io::Result<u64> {
+        self.cur.seek(p)
+    }
+}
+impl<'a> SrcPos for FaultCursor<'a> {
+    fn src_pos(&self) -> u64 {
+        self.cur.position() | ((self.fired as u64) << 62)
+    }
+    const FAULTY: bool = true;
 }
 impl SrcPos for std::io::Cursor<&[u8]> {
     fn src_pos(&self) -> u64 {
@@ -117,6 +154,9 @@ pub struct Model<'a> {
     pub eof_seen: bool,
     /// the cursor was re-established from delivered data after a failed seek
     pub resynced: bool,
+    /// an injected read fault has fired and no seek has succeeded since: the position is unspecified and nothing is demanded
+    /// of what is delivered (the property speaks of the data after a seek)
+    pub faulted: bool,
 }
 
 #[derive(Clone)]
@@ -132,7 +172,7 @@ pub fn model_for<'a>(front: Front, file: &'a TestFile, refbytes: &'a [u8]) -> Mo
         Front::Sample => file.pcm.len() as u64,
         Front::Channel => (file.pcm.len() / file.sig.ch as usize) as u64,
     };
-    Model { file, refbytes, pos: Some(0), len, eof_seen: false, resynced: false }
+    Model { file, refbytes, pos: Some(0), len, eof_seen: false, resynced: false, faulted: false }
 }
 
 type V = (String, String);
@@ -201,6 +241,9 @@ impl Model<'_> {
     // re-synchronised on the first delivered chunk when that chunk occurs exactly once in the reference (if it occurs several
     // times — short chunks, low depths — the position stays unknown and nothing is demanded).
     fn resync<T: PartialEq>(&mut self, reference: &[T], got: &[T], unit: usize) -> Result<(), V> {
+        if self.faulted {
+            return Ok(());
+        }
         if self.pos.is_some() || got.is_empty() || got.len() > reference.len() {
             if self.pos.is_none() && got.len() > reference.len() {
                 return Err(("misplaced-data-after-failed-seek".into(), format!("{} units delivered after a failed seek, the whole stream has {}", got.len(), reference.len())));
@@ -260,6 +303,7 @@ impl Model<'_> {
                 }
                 self.pos = Some(t);
                 self.resynced = false;
+                self.faulted = false;
                 self.eof_seen = false;
                 Ok("seek-ok".into())
             }
@@ -489,7 +533,7 @@ impl<'a, R: Read + Seek + Clone + SrcPos> Sys for ReaderSys<'a, R> {
                 (s.source.src_pos(), s.current_sample, s.frame_len, s.frame, s.buffered, s.consumed)
             }
         };
-        let mut k: Vec<i64> = vec![st.0 as i64, st.1 as i64, st.2 as i64, st.5 as i64, self.m.pos.map(|p| p as i64).unwrap_or(-1), self.m.eof_seen as i64, st.3.len() as i64];
+        let mut k: Vec<i64> = vec![st.0 as i64, st.1 as i64, st.2 as i64, st.5 as i64, self.m.pos.map(|p| p as i64).unwrap_or(-1), self.m.eof_seen as i64 | (self.m.faulted as i64) << 1, st.3.len() as i64];
         k.extend(st.3.iter().map(|x| *x as i64));
         k.extend(st.4.iter().map(|x| *x as i64));
         k
@@ -498,12 +542,30 @@ impl<'a, R: Read + Seek + Clone + SrcPos> Sys for ReaderSys<'a, R> {
         self.oplist.to_vec()
     }
     fn step(&mut self, op: &str) -> Result<String, V> {
+        let fired_before = R::FAULTY && (self.key()[0] >> 62) & 1 == 1;
         let m = &mut self.m;
-        match &mut self.rd {
+        let r = match &mut self.rd {
             Rd::ByteLE(r) => byte_step(r, m, op),
             Rd::ByteBE(r) => byte_step(r, m, op),
             Rd::Sample(r) => sample_step(r, m, op),
             Rd::Channel(r) => channel_step(r, m, op),
+        };
+        if R::FAULTY && !fired_before && (self.key()[0] >> 62) & 1 == 1 {
+            // the injected read fault fired inside this operation. Reporting it is right; an operation that succeeds
+            // regardless was checked against the cursor. Unless this very operation was a seek that succeeded, the position is
+            // unspecified from here until the next successful seek.
+            let seek_ok = matches!(&r, Ok(l) if l == "seek-ok");
+            if !seek_ok {
+                self.m.pos = None;
+                self.m.resynced = false;
+                self.m.faulted = true;
+            }
+            if let Err((c, _)) = &r {
+                if c == "read-error" || c == "in-range-seek-failed" {
+                    return Ok("injected-fault-reported".into());
+                }
+            }
         }
+        r
     }
 }
